@@ -168,8 +168,14 @@ class World:
         d = self.inputs[f"data_{m}"]
         xs = d[rng.integers(0, len(d), 7)] * 1.01 + 0.05
         xs[0, 0], xs[1, 1] = 0.0, -0.5        # boundary / outside-support values exercise masking paths
-        self.inputs[f"x_{m}"] = np.ascontiguousarray(xs)
-        self.inputs[f"sample_{m}"] = np.ascontiguousarray(d[rng.integers(0, len(d), 400)] + 0.01 * rng.random((400, 2)))
+        # memory layout of the caller's arrays: row-major for every other model created in this world, column-major
+        # (what np.array([hs, tz]).T or DataFrame.values give) for the others - a column of such an array is a
+        # contiguous VIEW, so an in-place operation on "a column" writes into the caller's array
+        self.nnew = getattr(self, "nnew", 0) + 1
+        lay = np.asfortranarray if (self.seed + self.nnew) % 2 else np.ascontiguousarray
+        self.inputs[f"data_{m}"] = lay(self.inputs[f"data_{m}"])
+        self.inputs[f"x_{m}"] = lay(xs)
+        self.inputs[f"sample_{m}"] = lay(d[rng.integers(0, len(d), 400)] + 0.01 * rng.random((400, 2)))
         # caller-owned grid limits, one entry deliberately in (upper, lower) order (accepted: min()/max() are taken)
         self.inputs[f"limits_{m}"] = np.array([[0.0, float(np.max(d[:, 0])) * 1.5], [float(np.max(d[:, 1])) * 1.5, 0.0]])
         return None
@@ -295,6 +301,7 @@ EVALS_FITTED = ["plot_dep", "plot_quantiles"]
 def replay_history(vc, rid, hist, conc, seed, tmp):
     """hist: list of {op, m, e}; conc: getters for A/B and evaluation kinds for e1/e2"""
     w = World(vc, seed)
+    w.nnew = rid % 2      # alternates which models get column-major inputs
     w.tmp = tmp
     digests = {}
     events = []
@@ -347,6 +354,7 @@ def replay_history(vc, rid, hist, conc, seed, tmp):
     if last is not None and any(ev["m"] == events[last]["m"] and ev["op"] in ("eval", "fit") for ev in events[:last]):
         m = events[last]["m"]
         w2 = World(vc, seed)
+        w2.nnew = rid % 2
         w2.tmp = tmp
         try:
             with warnings.catch_warnings():
